@@ -27,8 +27,13 @@ if '--cone' in sys.argv:
         lines=open(cf).read().split('\n'); files[cf]=lines
         for i,l in enumerate(lines):
             m=re.match(r'//@ func (.+)$',l)
-            if m and i+1<len(lines) and lines[i+1].startswith('//@   property'):
-                k=key(cf,m.group(1).strip()); where[k]=(cf,i+1); tags[k]=set(lines[i+1].split()[2:])
+            pj=None
+            if m:
+                for j in range(i+1,min(i+8,len(lines))):
+                    if lines[j].startswith('//@ func ') or not lines[j].startswith('//@'): break
+                    if lines[j].startswith('//@   property'): pj=j; break
+            if m and pj is not None:
+                k=key(cf,m.group(1).strip()); where[k]=(cf,pj); tags[k]=set(lines[pj].split()[2:])
     work=list(tags)
     while work:
         f=work.pop()
@@ -53,7 +58,12 @@ for cf in sorted(glob.glob('/repo/lib/**/zz_contracts_verif.go',recursive=True))
     while i<len(lines):
         l=lines[i]; out.append(l)
         m=re.match(r'//@ func (.+)$',l)
-        if m and i+1<len(lines) and lines[i+1].startswith('//@   property'):
+        pj=None
+        if m:
+            for j in range(i+1,min(i+8,len(lines))):
+                if lines[j].startswith('//@ func ') or not lines[j].startswith('//@'): break
+                if lines[j].startswith('//@   property'): pj=j; break
+        if m and pj is not None:
             name=m.group(1).strip()
             base=name.split('$')[0]
             mm=re.match(r'\(\*?(\w+)\)\.(\w+)',base)
@@ -69,13 +79,13 @@ for cf in sorted(glob.glob('/repo/lib/**/zz_contracts_verif.go',recursive=True))
                 rel=f[len('/repo/'):]
                 want|=anch.get(rel,set())
             want&=claimed
-            have=set(lines[i+1].split()[2:])
+            have=set(lines[pj].split()[2:])
             miss=sorted(want-have)
             if miss:
                 total+=len(miss)
                 print(cf[len('/repo/lib/'):].rsplit('/',1)[0], name, '+', ' '.join(miss))
                 if apply:
-                    lines[i+1]=lines[i+1].rstrip()+' '+' '.join(miss); changed=True
+                    lines[pj]=lines[pj].rstrip()+' '+' '.join(miss); changed=True
         i+=1
     if apply and changed:
         open(cf,'w').write('\n'.join(lines))
